@@ -103,6 +103,15 @@ def witness_inputs(rng):
             R("NOBODY", "2022-01-06", "Buy", 2, 10), R("NOBODY", "2022-02-06", "Sell", 1, 10, af="Spouse"),
             R("ALSO", "2022-01-07", "Sell", 1, 10), R("FINE", "2022-01-08", "Buy", 1, 10)]
     w.append(("several-securities-with-errors", {"rows": rows, "inits": {}}, "approot.rs list of securities with errors"))
+    # approot.rs per-security loop (over a hash map): state carried from one security to the next - opening
+    # positions of some securities, a split for all affiliates in others where the default affiliate never trades
+    rows = []
+    for k, s in enumerate(["AAA", "BBB", "CCC", "DDD", "EEE", "FFF"]):
+        rows.append(R(s, "2022-01-%02d" % (3 + k), "Buy", 10 + k, 10, af="Spouse"))
+        rows.append(R(s, "2022-02-%02d" % (3 + k), "Split", split=("2", "1")))
+        rows.append(R(s, "2022-03-%02d" % (3 + k), "Sell", 2, 9, af="Spouse"))
+    w.append(("opening-positions-next-to-global-splits", {"rows": rows, "inits": {"BBB": (D(5), D(10000, 2)), "EEE": (D(7), D(7000, 2))}},
+              "approot.rs per-security loop"))
     # decimal sums whose last digit depends on the order: gains of three
     # securities, costs of three securities settling on one day / carried
     trs = sensitive_triples(rng, 8)
